@@ -2,6 +2,23 @@ use std::{cell::Cell, marker::PhantomData, ptr::NonNull};
 
 mod cell;
 use self::cell::RecorderOnceCell;
+#[cfg(metrics_verif)]
+#[doc(hidden)]
+#[allow(missing_docs)]
+pub struct __VerifRecorderOnceCell(RecorderOnceCell);
+#[cfg(metrics_verif)]
+#[allow(missing_docs)]
+impl __VerifRecorderOnceCell {
+    pub const fn new() -> Self {
+        Self(RecorderOnceCell::new())
+    }
+    pub fn set<R: Recorder + 'static>(&self, recorder: R) -> Result<(), SetRecorderError<R>> {
+        self.0.set(recorder)
+    }
+    pub fn try_load(&self) -> Option<&'static dyn Recorder> {
+        self.0.try_load()
+    }
+}
 
 mod errors;
 pub use self::errors::SetRecorderError;
